@@ -1,7 +1,6 @@
 package main
 
 import (
-	"errors"
 	"io"
 	"net"
 	"os"
@@ -43,6 +42,10 @@ type memAddr string
 
 func (a memAddr) Network() string { return "mem" }
 func (a memAddr) String() string  { return string(a) }
+
+// errMemWriteClosed is what Write returns once either end has closed the pipe. Like the error of a
+// TCP or TLS connection (and unlike net.Pipe's io.ErrClosedPipe) it wraps net.ErrClosed.
+var errMemWriteClosed error = &net.OpError{Op: "write", Net: "mem", Err: net.ErrClosed}
 
 func memPipe() (*memConn, *memConn) {
 	a, b := newHalf(), newHalf()
@@ -97,7 +100,7 @@ func (c *memConn) Write(p []byte) (int, error) {
 	h.mu.Lock()
 	defer h.mu.Unlock()
 	if h.closed {
-		return 0, errors.New("memconn: write on closed pipe")
+		return 0, errMemWriteClosed
 	}
 	if c.onWrite != nil {
 		c.onWrite(p)
